@@ -114,15 +114,18 @@ def run_unit(args):
         res["covers"] = [list(x) for x in c.covers]
         # replay refuted obligations on the real code (state/input-level), one per distinct name
         seen = {}
+        unroll_budget = [45.0]
         for o in c.obligations:
             d = o.summary()
             if o.status == "refuted":
                 bn = o.name
                 if bn not in seen:
                     seen[bn] = replay_obligation(u, prop, o, known_ids)
-                    if seen[bn]["verdict"] != "confirmed" and not u.bounded:
-                        # counterexample completion: bounded unrolling, no loop cut
+                    if seen[bn]["verdict"] != "confirmed" and not u.bounded and unroll_budget[0] > 0:
+                        # counterexample completion: bounded unrolling, no loop cut (at most ~45 s per unit in total)
+                        tu = time.time()
                         w = complete_by_unrolling(u, prop, o, known_ids, seed)
+                        unroll_budget[0] -= time.time() - tu
                         if w is not None:
                             seen[bn] = w
                 d["replay"] = seen[bn]
